@@ -516,8 +516,10 @@ func c07run(cs *c07case, src c07src) (obs []c07obs, fails [][2]string) {
 				addFail("C07/consumed-not-exact", fmt.Sprintf("Recv #%d consumed %d bytes for a %d byte message", r, consumed, it.Len))
 			}
 		}
-		// an oversize header must not make Recv allocate the announced amount
-		if it != nil && tooBig(it) && it.Announced >= 4096 && o.alloc >= uint64(it.Announced) {
+		// an oversize header must not make Recv allocate the announced amount (announcements of 64 KiB
+		// and more only: a fixed initial receive buffer of a few KiB is not "the announced amount" -
+		// a false alarm met on a harmless change that raised the initial buffer from 512 to 4096 bytes)
+		if it != nil && tooBig(it) && it.Announced >= 65536 && o.alloc >= uint64(it.Announced) {
 			addFail("C07/oversize-buffered", fmt.Sprintf("Recv #%d allocated %d bytes for a header announcing %d > max %d", r, o.alloc, it.Announced, cs.Max))
 		}
 		if it != nil && tooBig(it) && consumed > 8 {
@@ -1290,10 +1292,19 @@ func driveC07(c *h.Ctx) error {
 		"A case is non-trivial when some message is not delivered by exactly one read per phase (header, body) or the stream is cut / oversize / faulty; distinct by (max, bytes, schedule, end error, transport)")
 	var cases []c07case
 	var w32cases []c07w32case
+	if c.Replay == nil {
+		c07Concurrent(c)
+	}
 	if c.Replay != nil {
 		m, _ := c.Replay["case"].(map[string]any)
 		if m == nil {
 			return fmt.Errorf("replay file has no case")
+		}
+		if m["leg"] == "concurrent-streams" {
+			for i := 0; i < 5; i++ {
+				c07Concurrent(c)
+			}
+			return c.WriteCases("cases_C07.v", "", 0)
 		}
 		if w, _ := m["w32"].(bool); w {
 			var cs c07w32case
